@@ -460,7 +460,8 @@ def gen(rng, tier):
         fpos = None
         if fault:
             fpos = rng.randint(0, len(client))
-            step = {"eof": ["eof"], "reset": ["reset"], "fail_write": ["fail_write_at", 1], "terminate": ["terminate"]}[fault]
+            # (a write fails with whatever errno the network has for it: a reset, but also a time-out or "no route to host")
+            step = {"eof": ["eof"], "reset": ["reset"], "fail_write": ["fail_write_at", 1, rng.choice([None, None, "timeout", "unreach"])], "terminate": ["terminate"]}[fault]
             client = client[:fpos] + [["mark", "fault"], step] + client[fpos:]
         case = {
             "family": ("h2" if h2 else "h1") + (".%s" % fault if fault else ""), "backends": ["asyncio", "trio"],
@@ -523,6 +524,11 @@ def check(case, obs, tally):
     out = []
     tr = case["truth"]
     T = tr["T"]
+    if obs.handler == "exception" and tr.get("fault") == "fail_write":
+        # "once the peer is gone (... a failed write) ... the connection's handler finishes": finishing is not crashing
+        tally.clause("release")
+        return [{"clause": "release", "sig": "C07.handler-crashed/after-failed-write/%s" % ((obs.handler_exc or "?").strip().splitlines()[-1].split(":")[0][:40]),
+                 "detail": "a write to the client failed and the connection handler raised: %s" % (obs.handler_exc or "")[-600:]}]
     if obs.handler == "exception":
         tally.inconclusive["handler-crashed(C04)"] += 1
         return out
